@@ -180,23 +180,13 @@ impl Pattern {
     }
 
     /// Returns this pattern without the given literal text at its beginning.
-    /// If the pattern doesn't start with that text, returns the pattern unchanged.
-    pub fn strip_literal_prefix(self, prefix: &str) -> Pattern {
-        let prefix = escape(prefix);
-        let mut src = self.src.as_str();
-        while let Some(rest) = src.strip_prefix(prefix.as_str()) {
-            src = rest;
-        }
-        if src.len() == self.src.len() {
-            return self;
-        }
+    /// If the pattern doesn't start with that text, returns `None`.
+    pub fn strip_literal_prefix(&self, prefix: &str) -> Option<Pattern> {
+        let src = self.src.strip_prefix(escape(prefix).as_str())?;
         let opts = PatternOpts {
             case_insensitive: self.anchored_regex.is_case_insensitive(),
         };
-        match Pattern::regex_with(src, &opts) {
-            Ok(stripped) => stripped,
-            Err(_) => self,
-        }
+        Pattern::regex_with(src, &opts).ok()
     }
 
     /// Returns true if this pattern fully matches the given path
